@@ -6,6 +6,8 @@ import (
 	"go/token"
 	"go/types"
 	"strings"
+
+	"golang.org/x/tools/go/packages"
 )
 
 // catClosed: is the language closed under concatenation (L·L ⊆ L)? Decided by emptiness of L·L ∩ ¬L.
@@ -693,4 +695,113 @@ func (e *Engine) mapEverWritten(v *types.Var) bool {
 		})
 	}
 	return found
+}
+
+// SweepConcurrency: the rely side of the channel and lock invariants. A channel invariant is assumed at every
+// receive because every send proves it, and a lock invariant is assumed at every acquisition because every release
+// proves it - so every send statement on such a channel, every close of one, and every access to a protected field
+// anywhere in the package (test files aside) has to be inside a function that is under contract for this property.
+func (e *Engine) SweepConcurrency(prop string) {
+	if e.cs == nil || (len(e.cs.ChanInvs) == 0 && len(e.cs.LockInvs) == 0) {
+		return
+	}
+	under := map[string]bool{}
+	for _, c := range e.ContractsFor(prop) {
+		under[contractKey(c.Pkg, c.Recv, strings.SplitN(c.Name, "$", 2)[0])] = true
+	}
+	pkgs := map[string]bool{}
+	for _, ci := range e.cs.ChanInvs {
+		pkgs[ci.Pkg] = true
+	}
+	for _, li := range e.cs.LockInvs {
+		pkgs[li.Pkg] = true
+	}
+	n := 0
+	fail := func(pkg *packages.Package, pos token.Pos, fn, what string) {
+		n++
+		p := pkg.Fset.Position(pos)
+		e.addObl(&Obligation{Name: fmt.Sprintf("%s#rely.%d", fn, n), Kind: "site", Func: fn, Goal: False, Verdict: "sat", Solver: "engine",
+			Pos: fmt.Sprintf("%s:%d", p.Filename, p.Line), Note: what})
+	}
+	checked := 0
+	for path := range pkgs {
+		pkg := e.pkgs[path]
+		if pkg == nil {
+			continue
+		}
+		for _, file := range pkg.Syntax {
+			if strings.HasSuffix(pkg.Fset.Position(file.Pos()).Filename, "_test.go") {
+				continue
+			}
+			for _, d := range file.Decls {
+				fd, ok := d.(*ast.FuncDecl)
+				if !ok || fd.Body == nil {
+					continue
+				}
+				recv := ""
+				if fd.Recv != nil && len(fd.Recv.List) == 1 {
+					t := fd.Recv.List[0].Type
+					if st, ok := t.(*ast.StarExpr); ok {
+						t = st.X
+					}
+					if id, ok := t.(*ast.Ident); ok {
+						recv = id.Name
+					}
+				}
+				fn := contractKey(path, recv, fd.Name.Name)
+				covered := under[fn]
+				ast.Inspect(fd.Body, func(nd ast.Node) bool {
+					switch x := nd.(type) {
+					case *ast.SendStmt:
+						if ct, ok := pkg.TypesInfo.TypeOf(x.Chan).Underlying().(*types.Chan); ok {
+							if ci := e.chanInvForElem(ct.Elem()); ci != nil {
+								checked++
+								if !covered {
+									fail(pkg, x.Pos(), fn, "send on a channel of "+ci.Elem+" in a function that is not under contract: the channel invariant ("+ci.Text+") that receivers rely on is not proved here")
+								}
+							}
+						}
+					case *ast.CallExpr:
+						if id, ok := x.Fun.(*ast.Ident); ok && id.Name == "close" && len(x.Args) == 1 {
+							if _, isBuiltin := pkg.TypesInfo.Uses[id].(*types.Builtin); isBuiltin {
+								if ct, ok := pkg.TypesInfo.TypeOf(x.Args[0]).Underlying().(*types.Chan); ok {
+									if ci := e.chanInvForElem(ct.Elem()); ci != nil {
+										fail(pkg, x.Pos(), fn, "close of a channel of "+ci.Elem+": receivers assume the channel invariant of every value received, a closed channel delivers zero values")
+									}
+								}
+							}
+						}
+					case *ast.SelectorExpr:
+						sel := pkg.TypesInfo.Selections[x]
+						if sel == nil || sel.Kind() != types.FieldVal {
+							return true
+						}
+						t := sel.Recv()
+						if p, ok := t.Underlying().(*types.Pointer); ok {
+							t = p.Elem()
+						}
+						nt, ok := t.(*types.Named)
+						if !ok || nt.Obj().Pkg() == nil {
+							return true
+						}
+						for _, li := range e.cs.LockInvs {
+							if li.Pkg != nt.Obj().Pkg().Path() || li.Type != nt.Obj().Name() {
+								continue
+							}
+							for _, f := range li.Protects {
+								if f == x.Sel.Name {
+									checked++
+									if !covered {
+										fail(pkg, x.Pos(), fn, "field "+li.Type+"."+f+" is protected by "+li.Mutex+" (lock invariant "+li.Text+") but is accessed in a function that is not under contract")
+									}
+								}
+							}
+						}
+					}
+					return true
+				})
+			}
+		}
+	}
+	e.notes = appendUnique(e.notes, fmt.Sprintf("rely sweep: %d send statements / protected-field accesses in the package are all inside functions under contract", checked))
 }
